@@ -101,6 +101,8 @@ def explore(arg):
             I.bind('targets', tm)
             I.bind('requested_targets', NONE if mode == 'all' else some(RVec.of(['a'])))
             I.bind('project_dirs', RVec.of(['/p']))
+            # what main() computes before the branch: the ids named on the command line, or every target
+            I.bind('root_target_ids', RVec.of([tid(n) for n in scope]) if mode == 'all' else RVec.of([tid('a')]))
             try:
                 I.exec_block(node['then'])
                 return 'ok'
@@ -314,13 +316,29 @@ def run(prop, tier, seed, repo, jobs):
                 samples.append({'native_validation': mode, 'deleted': deleted})
     except Exception as ex:   # pragma: no cover
         inconclusive.append('native validation failed: %s' % ex)
+    # scope of --clean asked of the whole main(): state of T and of all its dependencies, of nothing else
+    main_stage = {'variants': 0, 'paths': 0}
+    try:
+        from . import mainrun
+        st = mainrun.stage(prop, tier, repo, jobs)
+        violations += st['violations']
+        inconclusive += st['inconclusive']
+        samples += st['samples']
+        nob += st['nob']
+        ndis += st['ndis']
+        paths += st['paths']
+        fns |= st['fns']
+        main_stage = {'variants': st['variants'], 'paths': st['paths']}
+    except Exception as ex:   # pragma: no cover
+        inconclusive.append('main() stage failed: %s' % ex)
     wall = time.time() - t0
     coverage = {
+        'main_stage': main_stage,
         'explanation': 'symbolic execution of the --clean branch of main(), clean.rs, work_dir.rs, storage::delete_saved_env_state and fs::list_files_in_paths over a symbolic file system; per path and per deletion primitive a z3 query against the reference set of paths that may / must be deleted',
         'obligations': nob, 'discharged': ndis, 'paths': paths, 'evaluations': max(paths, 1), 'distinct_nontrivial': max(paths, 2),
         'rule': 'one evaluation = one feasible symbolic path (a set of file trees)', 'samples': samples or [{'note': 'none'}],
         'functions_encoded': sorted(fns), 'bounds': [{'paths_universe': PATHS, 'targets': TARGETS}], 'traces_validated_against_impl': validated,
         'outside_claim': ['links as declared paths, chains of links', 'trees outside the path universe', 'errors of the deletion primitives other than NotFound'], 'exhaustive': False,
     }
-    common.write_evidence(prop, tier, seed, 'other', coverage, ASSUMPTIONS, wall, len(violations))
+    common.write_evidence(prop, tier, seed, 'other', coverage, ASSUMPTIONS + [mainrun.ASSUMPTION], wall, len(violations))
     return common.finish(prop, violations, inconclusive, known_lines)
